@@ -750,6 +750,6 @@ def stats(cases, impl):
                 else:
                     outcomes["replaced"] += 1
             outcomes["removed"] += sum(1 for n in a if n not in b)
-    return {"families": {f: sum(1 for c in cases if c.get("family") == f) for f in ("tame", "wild", "clash", None)},
+    return {"families": {f: sum(1 for c in cases if c.get("family") == f) for f in ("tame", "wild", "clash", "corpus")},
             "reloads": reloads, "edit_kinds": kinds, "watcher_outcomes": outcomes,
             "versions_per_case": {str(k): sum(1 for c in cases if len(c["versions"]) == k) for k in range(2, 8)}}
